@@ -1719,6 +1719,11 @@ where
                     (Command::ShowPrimaryReads, value) => {
                         show_response(&mut self.write, "primary reads", &value).await?;
                     }
+
+                    // Recognized command with an unusable argument; nothing was changed.
+                    (Command::Invalid, message) => {
+                        error_response(&mut self.write, &message).await?;
+                    }
                 };
 
                 Ok(true)
